@@ -11,6 +11,9 @@ CLAIMS = {
  "C07": ("Kernel-checked theorems about a Gallina model of unify.rs/union.rs (union-find shown to be a triangular substitution): the unifier keeps its substitution triangular/acyclic, reduce terminates on such substitutions within an explicit fuel bound, accepted systems are solved by the result, the fixed occurs check rejects self-containing property types (F2 regression lemma about the pinned occurs). Partial: termination of unify itself and completeness (order/name independence) are stated (C07_full) but not proved; they are carried by the tie: exhaustive small equation systems + random + solvable-by-construction systems, model vs implementation incl. failing-equation index, vs an independent Robinson unifier, under permutation/renaming/side swap.",
          "Trusted: Coq kernel, extraction, harness, python reference unifier. The model is the union-find read as a variable-to-tag map (justified in Model/Unify.v, validated by the tie). Hook: cfg(oal_verif) re-export of the inference module.",
          "Rocq proof (triangular-substitution invariant, soundness, reduce termination) + exhaustive/random differential unification", "DESIGN.md 7 C07"),
+ "C10": ("Kernel-checked theorems about a Gallina transcription of module::load (LIFO work list, deps map, edge list, two-phase import handling) for every file system and any number of modules: on success every reachable module is loaded/parsed exactly once and compiled exactly once after all modules it imports; every error names a real defect of the reachable import graph (cycle incl. self import, missing import reported from its importer, unparsable module, failing compile); nothing is compiled on a load error; termination with an explicit fuel bound; the verdict cannot change under permutation of use statements; join is invariant under ./ and name/.. spellings. petgraph's toposort is a parameter with a stated contract. Tie: recording in-memory Loader around the real load, exhaustive 3-module graphs + random graphs, Locator::join vs the model's join.",
+         "Trusted: Coq kernel, extraction, harness; toposort contract (topo_spec) and url::Url::join are validated at run time, not derived. K9 (two unqualified imports exporting one name make resolution depend on use order) belongs to name resolution and is reported under C08.",
+         "Rocq proof (loop invariant over the loader state machine) + exhaustive/random differential loading", "DESIGN.md 7 C10"),
 }
 m = {"version": 1, "setup_cmd": "./setup.sh",
      "hooks": {"guard": "oal_verif", "enable": "RUSTFLAGS=\"--cfg oal_verif\" (set by the driver for every build of /repo's crates; a cfg flag, no cargo feature)",
